@@ -51,10 +51,11 @@ META = dict(
         "splitted_copy equality or names the measure n.s.i.); frequency "
         "histograms (nsi_degree_histogram), nsi_laplacian and the "
         "experimental nsi_spreading are out of scope by their own docs",
-        "shortest-path based measures and the eigenvector centrality only "
-        "on connected undirected graphs (random-walk betweennesses are "
-        "defined per component and run on all undirected graphs); "
-        "nsi_betweenness only undirected"],
+        "the eigenvector centrality only on connected undirected graphs; "
+        "shortest-path based measures (average path length, the closeness "
+        "family, global efficiency) on all graphs, directed and disconnected "
+        "ones included; random-walk betweennesses are defined per component "
+        "and run on all undirected graphs; nsi_betweenness only undirected"],
 )
 
 # typical weights: chosen so that the corrected degree k/tw - 1 (a factor of
@@ -63,6 +64,7 @@ META = dict(
 TW2, TW3 = 2.137, 3.271
 # (label, method, kwargs, kind, needs)   kind: g(lobal) n(ode) p(air)
 U, D, C = "undirected", "directed-ok", "connected"
+ANY = "directed-or-disconnected-ok"
 NET = [
     ("nsi_degree", {}, "n", D), ("nsi_degree", {"typical_weight": TW2}, "n", D),
     ("nsi_degree", {"key": "w"}, "n", D),
@@ -89,11 +91,11 @@ NET = [
     ("nsi_local_outmotif_clustering", {}, "n", D),
     ("nsi_local_outmotif_clustering", {"key": "w"}, "n", D),
     ("nsi_twinness", {}, "p", U),
-    ("nsi_average_path_length", {}, "g", C),
-    ("nsi_closeness", {}, "n", C),
-    ("nsi_harmonic_closeness", {}, "n", C),
-    ("nsi_exponential_closeness", {}, "n", C),
-    ("nsi_global_efficiency", {}, "g", C),
+    ("nsi_average_path_length", {}, "g", ANY),
+    ("nsi_closeness", {}, "n", ANY),
+    ("nsi_harmonic_closeness", {}, "n", ANY),
+    ("nsi_exponential_closeness", {}, "n", ANY),
+    ("nsi_global_efficiency", {}, "g", ANY),
     ("nsi_betweenness", {}, "n", U),
     ("nsi_eigenvector_centrality", {}, "n", C),
     ("nsi_arenas_betweenness", {}, "n", U),
@@ -257,7 +259,7 @@ def one_split(ctx, Network, A, w, W, directed, v, p, cid, measures,
         for m, kw, kind, need in measures:
             if "key" in kw and W is None:
                 continue
-            if directed and need != D:
+            if directed and need not in (D, ANY):
                 continue
             if need == C and not conn:
                 continue
